@@ -50,7 +50,7 @@ theorem C09_partial (src : List Byte) :
     | fault w => exact absurd h (C09_no_fault src _ w)
 
 /-! Non-vacuity: an accepted program, a syntactic and a lexical diagnostic with their locations, the
-    0xFF byte acting as end of file, and the stray token the pinned parser used to accept. -/
+    0xFF byte acting as end of file, and the second stray token after the program (the first is skipped). -/
 
 /-- The outcome of the front end in a comparable form: the undecorated `--tree` text, or the error. -/
 def outcome (src : String) : PErr ⊕ List Byte :=
@@ -63,7 +63,7 @@ example : outcome "proc main() is 0(1+2)" =
   decide +kernel
 example : outcome "proc main() is x := " = .inl (.diag ⟨.parserToken, ⟨0, 22⟩⟩) := by decide +kernel
 example : outcome "proc main() is 0('ab')" = .inl (.diag ⟨.token, ⟨0, 20⟩⟩) := by decide +kernel
-example : outcome "proc main() is skip x" = .inl (.diag ⟨.unexpectedToken, ⟨0, 22⟩⟩) := by decide +kernel
+example : outcome "proc main() is skip x y" = .inl (.diag ⟨.unexpectedToken, ⟨0, 24⟩⟩) := by decide +kernel
 example : (lexAll [112, 255, 113]).length = 4 := by decide +kernel
 
 end Hex.Xcmp
